@@ -153,6 +153,10 @@ type vfC19DB struct {
 	perRR int
 	// junkFirst puts the malformed strings before the hashes.
 	junkFirst bool
+	// interleave makes the service list the hashes of the asked prefixes
+	// round-robin instead of grouped by prefix (the order of an answer is the
+	// service's business).
+	interleave bool
 	// otherRRs adds non-TXT records to the answer section.
 	otherRRs bool
 	// nxEmpty answers NXDOMAIN instead of NOERROR/NODATA when nothing matches.
@@ -260,6 +264,7 @@ func (u *vfC19Ups) Exchange(req *dns.Msg) (resp *dns.Msg, err error) {
 	q := req.Question[0]
 	labels, _ := vfC19ParsePrefixes(q.Name, u.suffix)
 	var strs []string
+	var groups [][]string
 	seen := map[vfC19Pfx]bool{}
 	for _, l := range labels {
 		p, ok := vfC19LabelPrefix(l)
@@ -271,8 +276,28 @@ func (u *vfC19Ups) Exchange(req *dns.Msg) (resp *dns.Msg, err error) {
 		if u.onAnswer != nil {
 			u.onAnswer(p, es)
 		}
+		var g []string
 		for _, e := range es {
-			strs = append(strs, e.text())
+			g = append(g, e.text())
+		}
+		groups = append(groups, g)
+	}
+	if u.db.interleave {
+		for i := 0; ; i++ {
+			added := false
+			for _, g := range groups {
+				if i < len(g) {
+					strs = append(strs, g[i])
+					added = true
+				}
+			}
+			if !added {
+				break
+			}
+		}
+	} else {
+		for _, g := range groups {
+			strs = append(strs, g...)
 		}
 	}
 	if len(seen) > 0 {
@@ -608,10 +633,11 @@ func vfC19DrawEntry(t *rapid.T, universe []vfC19Entry, label string) (e vfC19Ent
 func vfC19DrawDB(t *rapid.T, hosts []string, maxEntries int) (db *vfC19DB, universe []vfC19Entry) {
 	universe = vfC19Universe(hosts)
 	db = &vfC19DB{
-		perRR:     rapid.SampledFrom([]int{0, 1, 1, 2, 3}).Draw(t, "db_per_rr"),
-		junkFirst: rapid.Bool().Draw(t, "db_junk_first"),
-		otherRRs:  rapid.Bool().Draw(t, "db_other_rrs"),
-		nxEmpty:   rapid.Bool().Draw(t, "db_nx_empty"),
+		perRR:      rapid.SampledFrom([]int{0, 1, 1, 2, 3}).Draw(t, "db_per_rr"),
+		junkFirst:  rapid.Bool().Draw(t, "db_junk_first"),
+		interleave: rapid.Bool().Draw(t, "db_interleave"),
+		otherRRs:   rapid.Bool().Draw(t, "db_other_rrs"),
+		nxEmpty:    rapid.Bool().Draw(t, "db_nx_empty"),
 	}
 	n := rapid.IntRange(0, maxEntries).Draw(t, "db_n")
 	for i := 0; i < n; i++ {
